@@ -222,13 +222,13 @@ PLANS["C25"] = {
         {"sub": "origin-exh", "cfg": "native", "quick": {"cases": 346, "secs": 300}, "thorough": {"cases": 346, "secs": 900}},
         {"sub": "origin-rand", "cfg": "native", "quick": {"cases": 400, "secs": 100}, "thorough": {"cases": 40000, "secs": 900}},
         {"sub": "origin-serde", "cfg": "persist", "quick": {"cases": 346, "secs": 300}, "thorough": {"cases": 346, "secs": 900}},
-        # `cargo miri run` serialises on the target-dir lock, so Miri work is not sharded: quick interprets 6 of the 16 blocks
-        # of the length<=1 space (which 6 depends on VERIF_SEED), thorough all of them ten times with different samples
-        {"sub": "origin-miri", "cfg": "miri", "max_shards": 1, "quick": {"cases": 6, "secs": 400, "hard_timeout": 1500},
+        # `cargo miri run` serialises on the target-dir lock, so Miri work is not sharded: quick interprets 4 of the 16 blocks
+        # of the length<=1 space (which 4 depends on VERIF_SEED), thorough all of them ten times with different samples
+        {"sub": "origin-miri", "cfg": "miri", "max_shards": 1, "quick": {"cases": 4, "secs": 400, "hard_timeout": 1500},
          "thorough": {"cases": 160, "secs": 3000, "hard_timeout": 6000}},
     ],
     "min_counts": {"quick": {"exhaustive_sequences": 176821, "packed_layouts": 20000, "wide_layouts": 500000,
-                             "origins_serialized": 500000, "miri_origins": 500}},
+                             "origins_serialized": 500000, "miri_origins": 300}},
     "assumptions": ["the boundary classes are those of the compact encoding's documented limits (12-bit ingredient, 20-bit generation)",
                     "the feature-guarded hook calls the same constructors and accessors as salsa's own code paths"],
     "extra_coverage": {"exhaustive": True},
@@ -259,7 +259,11 @@ PLANS["C23"] = {
          "quick": {"cases": 16000, "secs": 100}, "thorough": {"cases": 800000, "secs": 900}},
         {"sub": "mem-miri", "cfg": "miri", "sanitizer": "miri", "max_shards": 1,
          "quick": {"cases": 3, "secs": 400, "hard_timeout": 1500}, "thorough": {"cases": 80, "secs": 3000, "hard_timeout": 6000}},
-        {"sub": "os-asan", "cfg": "asan", "sanitizer": "asan", "env": ASAN_ENV, "thorough": {"cases": 6000, "secs": 900}},
+        # OS threads (readers, struct churn, cycles, writer+readers, cancellation): natively a death by signal is the observation,
+        # under ASan the report
+        {"sub": "os", "cfg": "native", "sanitizer": "native", "quick": {"cases": 480, "secs": 60}, "thorough": {"cases": 12000, "secs": 900}},
+        {"sub": "os-asan", "cfg": "asan", "sanitizer": "asan", "env": ASAN_ENV,
+         "quick": {"cases": 160, "secs": 60}, "thorough": {"cases": 6000, "secs": 900}},
         {"sub": "fault-asan", "cfg": "asan", "sanitizer": "asan", "env": ASAN_ENV, "thorough": {"cases": 20000, "secs": 900}},
         # real threads interpreted by Miri: data races and UB in salsa's unsafe code under 12 interpreter seeds (different
         # preemption points and weak-memory outcomes), 2 failpoint profiles per case
